@@ -39,6 +39,9 @@ def run(ctx, res):
     PP.loop_guards(P, reach, res)
     PP.pop_unpop(P, reach, res)
     PI.paired_calls(P, res)
+    # the reviewed `.parse().unwrap()` rows of parse_float / parse_integer rely on number tokens being ASCII numbers
+    from . import c12 as _c12
+    _c12.number_tokens_parse(ctx.shape, res, rule="NUMBER-TOKENS")
     import json as _json, os as _os
     from ..core import VERIF as _V
     PP.recursion_progress(P, reach, res, _json.load(open(_os.path.join(_V, "tables", "parse_recursion.json"))))
